@@ -23,7 +23,7 @@ func main() { Main("C17", runC17) }
 // ---- an empty provider (route.Provider is a public interface) ----
 type emptyProvider struct{}
 
-func (emptyProvider) LoadAll() ([]*route.Route, error)                  { return nil, nil }
+func (emptyProvider) LoadAll() ([]*route.Route, error)                { return nil, nil }
 func (emptyProvider) Flush(full, saves, removes []*route.Route) error { return nil }
 
 // ---- recording pull-stream factory ----
